@@ -24,10 +24,13 @@ SYSTEMS = {
     # element orders that are cyclic rotations of the alphabetical order (the un-sorting permutation is not its own inverse there)
     "nicral_fcc_rot": ("NICRAL_TDB", ["NI", "AL", "CR"], ["FCC_A1", "BCC_A2"], [(0.005, 0.14), (0.005, 0.30)], (1200, 1550)),
     "fecrni_fcc_rot": ("FECRNI_DB", ["FE", "NI", "CR"], ["FCC_A1", "BCC_A2"], [(0.08, 0.5), (0.01, 0.25)], (1150, 1550)),
+    # the queried matrix phase is the *second* listed phase, addressed through the `phase` keyword of the queries
+    "fecrni_bcc_second": ("FECRNI_DB", ["FE", "CR", "NI"], ["FCC_A1", "BCC_A2"], [(0.1, 0.6), (0.002, 0.05)], (950, 1500)),
     "alzr_fcc": ("ALZR_TDB", ["AL", "ZR"], ["FCC_A1", "AL3ZR"], [(1e-6, 5e-4)], (600, 900)),
     "almgsi_fcc": ("ALMGSI_DB", ["AL", "MG", "SI"], ["FCC_A1", "MGSI_B_P", "MG5SI6_B_DP"], [(1e-4, 0.01), (1e-4, 0.008)], (600, 850)),
     "cuti_fcc": ("/examples/CuTi.tdb", ["CU", "TI"], ["FCC_A1", "CU4TI"], [(1e-4, 0.03)], (800, 1150)),
 }
+QUERY_PHASE = {"fecrni_bcc_second": "BCC_A2"}
 _cache = {}
 
 
@@ -63,7 +66,7 @@ def check_point(case):
     name = case["system"]
     th = _therm(name)
     _, els, phs, _, _ = SYSTEMS[name]
-    ph = phs[0]
+    ph = QUERY_PHASE.get(name, phs[0])
     x = np.array(case["x"], dtype=float)
     T = case["T"]
     out.label(name)
